@@ -9,7 +9,7 @@ use std::hash::{Hash, Hasher};
 
 const ITER_OPS: &[&str] = &[
   "drop", "forget", "drain", "splice", "drain_filter", "into_iter", "next", "next_back", "size_hint",
-  "len", "as_slice", "clone_iter",
+  "len", "as_slice", "clone_iter", "nth", "nth_back", "count",
 ];
 
 /// outer None: not handled here
@@ -98,6 +98,29 @@ fn iter_op(c: &mut Ctx, t: &[&str]) -> Option<Out> {
         }
         _ => return None,
       }
+    }
+    "nth" | "nth_back" => {
+      let k: usize = t[2].parse().ok()?;
+      let mut res = None;
+      for j in 0..=k {
+        res = match iter_op(c, &[if op == "nth" { "next" } else { "next_back" }, t[1]])? {
+          Out::Opt(o) => o,
+          _ => return None,
+        };
+        if res.is_none() {
+          break;
+        }
+        let _ = j;
+      }
+      Out::Opt(res)
+    }
+    "count" => {
+      let mut n = 0u64;
+      while let Out::Opt(Some(_)) = iter_op(c, &["next", t[1]])? {
+        n += 1;
+      }
+      iter_op(c, &["drop", t[1]])?;
+      Out::Nums(vec![n])
     }
     "size_hint" | "len" => match &c.sh[i] {
       Sh::Drain { mid, .. } | Sh::Splice { mid, .. } | Sh::Into(mid) => {
